@@ -29,11 +29,18 @@ def cases(tier, seed):
             out.append((version, action, rq[1], rs[1]))
     # strings as a peer may legally send them in JSON: escapes of unpaired surrogates (text cut in the middle of an emoji),
     # NUL, characters beyond the BMP, a BOM -- the library hands them to the handler, so it must take them back
-    odd = ["a\ud83d", "\udc00x", "\x00", "\U0001F50C", "\ufeffx", "\u2028"]
+    # ... and strings that LOOK like something else: JSON text (not in compact form, duplicate members), numbers, URIs without
+    # a scheme where the schema says format: uri (an annotation in draft 4, not a constraint)
+    odd = ["a\ud83d", "\udc00x", "\x00", "\U0001F50C", "\ufeffx", "\u2028",
+           '{"soc": 80, "limits": [16.0, 32.50]}', '[1, 2 ]', '{"a": 1, "a": 2}', "1e3", "null", " padded "]
+    for loc in ("fw.example.com/fw.bin", "/srv/fw.bin", "", "not a uri", "ftp://u:p@h/x"):
+        out.append(("1.6", "UpdateFirmware", {"location": loc, "retrieveDate": "2024-01-01T00:00:00Z"}, {}))
+        out.append(("1.6", "GetDiagnostics", {"location": loc}, {"fileName": loc}))
     for i, sv in enumerate(odd):
         out.append(("1.6", "DataTransfer", {"vendorId": sv, "data": sv + "d"}, {"status": "Accepted", "data": sv}))
         out.append(("2.0.1", "DataTransfer", {"vendorId": "v", "data": {"k" + sv: [sv]}}, {"status": "Accepted", "data": {"d": sv}}))
-        out.append(("1.6", "Authorize", {"idTag": sv}, {"idTagInfo": {"status": "Accepted", "parentIdTag": sv}}))
+        if len(sv) <= 20:         # idTag: maxLength 20
+            out.append(("1.6", "Authorize", {"idTag": sv}, {"idTagInfo": {"status": "Accepted", "parentIdTag": sv}}))
     return out
 
 
